@@ -26,7 +26,8 @@ RULE = ("random sweeps (grids and case sets as in C01/C02) x runner descriptions
         "1-d array outputs with an internal dimension given by var_coords or by a constant, spellings of "
         "var_names/var_dims (str, tuple, dict, dict with tuple keys), constants / resources / attrs, through "
         "combo_runner_to_ds, case_runner_to_ds, *_to_df, Runner.run_combos / run_cases, label(), functions returning "
-        "Dataset / dict with var_names=None, shuffle and parallel options; distinct = distinct (sweep, description, "
+        "Dataset / dict with var_names=None, shuffle and parallel options; plus histories of 2-4 runs through ONE Runner / "
+        "label object or one shared attrs mapping with per-call constants (no state carried between runs); distinct = distinct (sweep, description, "
         "api, options); non-trivial = at least two settings")
 
 VAR_ID = {"v0": 100, "v1": 101, "v2": 102}
@@ -151,6 +152,8 @@ def one_case(c, rng, tmp):
         extra["num_workers"] = 2
     combos = sw.combos_arg(rng) if sw.combos else None
     cases_t = [tuple(cc) for cc in sw.cases]
+    given = {"constants": constants, "resources": resources, "attrs": attrs}
+    constants, resources, attrs = dict(constants), dict(resources), dict(attrs)   # what xyzpy is handed
     try:
         if api == "function":
             if sw.cases and rng.random() < 0.5:
@@ -181,6 +184,9 @@ def one_case(c, rng, tmp):
                 out = runner.run_combos(combos, shuffle=shuffle, to_df=to_df, verbosity=0, **extra)
     except Exception as e:  # noqa
         return desc, {"error": f"{type(e).__name__}: {str(e)[:200]}"}, None, sw
+    modified = {k: v for k, v in (("constants", constants), ("resources", resources), ("attrs", attrs))
+                if v != given[k]}
+    constants, resources, attrs = given["constants"], given["resources"], given["attrs"]
     fn_args = list(sw.case_args) + list(sw.combo_args)
     perm = py_perm(shuffle, sw.n_settings()) if shuffle else None
     # model input: consts = resources then constants (dict merge order of combo_runner_to_ds)
@@ -192,6 +198,8 @@ def one_case(c, rng, tmp):
     inp = sw.coq_input(False, False, perm).replace(" [] false false", " CONSTS false false", 1)
     inp = inp.replace("CONSTS", "[" + "; ".join(f"({a}, {v})" for a, v in kw_consts) + "]")
     obs = {"out": out}
+    if modified:
+        obs["caller_modified"] = {k: repr(v) for k, v in modified.items()}
     if to_df:
         rows = []
         for _, r in out.iterrows():
@@ -222,6 +230,73 @@ def one_case(c, rng, tmp):
     else:
         model = None
     return desc, obs, model, sw
+
+
+def ds_model_expr(sw, kind, names, constants, resources, attrs, perm):
+    """run_ds expression for scalar outputs (the same construction as in one_case)."""
+    kw_consts = [(R.CONST_ARGS[k], v) for k, v in resources.items()]
+    kw_consts += [(R.CONST_ARGS[k], v) for k, v in constants.items()]
+    sw.consts = {}
+    inp = sw.coq_input(False, False, perm).replace(" [] false false", " CONSTS false false", 1)
+    inp = inp.replace("CONSTS", "[" + "; ".join(f"({a}, {v})" for a, v in kw_consts) + "]")
+    cs = "[" + "; ".join(f"({R.CONST_ARGS[k]}, {v})" for k, v in constants.items()) + "]"
+    at = "[" + "; ".join(f"({ATTR_ID[k]}, {v})" for k, v in attrs.items()) + "]"
+    return f"run_ds {kind} {zlist([VAR_ID[n] for n in names])} [] [] {cs} {at} {inp}"
+
+
+def history_case(c, rng):
+    """Several runs through ONE Runner / label object (or one attrs dict handed to several calls): every run's
+    Dataset must be the model's for that run's own description -- nothing carried over from earlier runs."""
+    import xyzpy
+    sw = R.Sweep(rng, with_cases=False, max_args=3, max_vals=3, kind=0, allow_consts=False)
+    nv = rng.randint(1, 2)
+    kind = 10 + nv
+    names = [f"v{j}" for j in range(nv)]
+    attrs = {"at1": rng.randint(0, 9)}
+    if rng.random() < 0.3:
+        attrs["at2"] = rng.randint(0, 9)
+    if rng.random() < 0.15:
+        attrs = {}
+    base = {"k1": rng.randint(0, 4)} if rng.random() < 0.25 else {}
+    resources = {"k2": rng.randint(0, 4)} if rng.random() < 0.4 else {}
+    api = rng.choice(["Runner", "label", "shared-dict"])
+    fn = functools.partial(labelled_fn, sw.rank, kind, "plain")
+    fn_args = list(sw.combo_args)
+    shared = dict(attrs)
+    if api == "Runner":
+        runner = xyzpy.Runner(fn, tuple(names), constants=base or None, resources=resources or None,
+                              attrs=shared or None, fn_args=tuple(fn_args))
+    elif api == "label":
+        runner = xyzpy.label(tuple(names), constants=base or None, resources=resources or None,
+                             attrs=shared or None, fn_args=tuple(fn_args))(fn)
+    out = []
+    for i in range(rng.randint(2, 4)):
+        callc = {}
+        if rng.random() < (0.8 if i == 0 else 0.35):
+            callc["k1"] = rng.randint(0, 4)
+        shuffle = rng.choice([False, False, True])
+        combos = sw.combos_arg(rng)
+        eff = {**base, **callc}
+        desc = {"history": True, "api": api, "run": i, "sweep": sw.describe(), "n_vars": nv, "arrays": False,
+                "to_df": False, "mode": "plain", "constants": dict(eff), "call_constants": dict(callc),
+                "resources": resources, "attrs": attrs, "shuffle": shuffle, "t_source": None}
+        try:
+            if api == "shared-dict":
+                ds = xyzpy.combo_runner_to_ds(fn, combos, tuple(names), constants=eff or None,
+                                              resources=resources or None, attrs=shared or None, shuffle=shuffle,
+                                              verbosity=0)
+            else:
+                ds = runner.run_combos(combos, constants=callc, shuffle=shuffle, verbosity=0)
+        except Exception as e:  # noqa
+            out.append((desc, {"error": f"{type(e).__name__}: {str(e)[:200]}"}, None, sw, eff))
+            continue
+        perm = py_perm(shuffle, sw.n_settings()) if shuffle else None
+        obs = {"out": ds, "canon": canon_ds(ds, sw, fn_args, names, None, [])}
+        model = ds_model_expr(sw, kind, names, eff, resources, attrs, perm)
+        if shared != attrs:
+            obs["caller_attrs_modified"] = dict(shared)
+        out.append((desc, obs, model, sw, eff))
+    return out
 
 
 def oracle(desc, obs, sw, constants_full):
@@ -307,6 +382,11 @@ def oracle(desc, obs, sw, constants_full):
     for k, v in desc["attrs"].items():
         if ds.attrs.get(k) != v:
             bad.append(("ds-attr-lost", k))
+    allowed = set(desc["attrs"]) | {k for k in constants_full if k not in ds.dims}
+    extra = sorted(set(ds.attrs) - allowed)
+    if extra:
+        bad.append(("ds-attribute-not-of-this-run", f"attributes {extra} = {[ds.attrs[k] for k in extra]} are neither "
+                    "attrs nor constants of this run"))
     seen = set()
     return [b for b in bad if not (b[0] in seen or seen.add(b[0]))]
 
@@ -337,11 +417,28 @@ def run(tier, seed):
             c.count("n_vars", desc["n_vars"]); c.count("arrays", desc["arrays"]); c.count("shuffle", bool(desc["shuffle"]))
             c.count("cases", bool(sw.cases)); c.count("t_source", str(desc["t_source"]))
             fails = oracle(desc, obs, sw, constants_full)
+            if "caller_modified" in obs:
+                fails.append(("caller-mapping-modified", f"the mapping(s) handed to xyzpy were modified by the run: "
+                              f"{obs['caller_modified']} (a later run with the same mapping is mislabelled)"))
             for key, msg in fails:
                 c.violation(key, msg, desc)
             if model is not None and "canon" in obs and not fails:
                 pairs.append((model, obs["canon"]))
                 metas.append(desc)
+        for h in range(40 if tier == "quick" else 300):
+            for desc, obs, model, sw, eff in history_case(c, c.rng):
+                c.case(json.dumps(desc, sort_keys=True, default=str), nontrivial=desc["run"] > 0,
+                       sample={**desc, "observed": obs.get("canon")} if sw.n_settings() <= 2 else None)
+                c.count("api", "history/" + desc["api"]); c.count("history_run", desc["run"])
+                fails = oracle(desc, obs, sw, eff)
+                if "caller_attrs_modified" in obs:
+                    fails.append(("caller-attrs-modified", f"the attrs mapping handed to xyzpy now holds "
+                                  f"{obs['caller_attrs_modified']}"))
+                for key, msg in fails:
+                    c.violation(key, msg, desc)
+                if model is not None and "canon" in obs and not fails:
+                    pairs.append((model, obs["canon"]))
+                    metas.append(desc)
         bad, _ = core.safe_run_cases(c, "Prelude Grid Perm Runner RunnerInst Flow Label LabelInst", pairs, chunk=120)
         for i in bad:
             c.obligation_broken("correspondence Model/Label.v vs results_to_ds / results_to_df",
